@@ -233,7 +233,8 @@ impl BlockManager {
         Ok(this)
     }
 
-    pub fn init(&self, clean_blocks: &[BlockId]) {
+    /// `evictable_order` lists the blocks with data, oldest first; blocks that are neither clean nor listed follow.
+    pub fn init(&self, clean_blocks: &[BlockId], evictable_order: &[BlockId]) {
         let mut state = self.inner.state.write().unwrap();
         let mut evictable_blocks: HashSet<BlockId> = self.inner.blocks.iter().map(|r| r.id()).collect();
         state.clean_blocks = clean_blocks
@@ -243,13 +244,17 @@ impl BlockManager {
             })
             .copied()
             .collect();
+        let evictable_blocks = evictable_order
+            .iter()
+            .copied()
+            .filter(|id| evictable_blocks.remove(id))
+            .collect_vec()
+            .into_iter()
+            .chain(evictable_blocks.iter().copied().sorted())
+            .collect_vec();
 
         // Temporarily take pickers to make borrow checker happy.
         let mut pickers = std::mem::take(&mut state.eviction_pickers);
-
-        // Deterministic notification order for verification harnesses (a `HashSet` iterates in a per-process order).
-        #[cfg(feature = "verif")]
-        let evictable_blocks: std::collections::BTreeSet<BlockId> = evictable_blocks.into_iter().collect();
 
         // Notify pickers.
         for block in evictable_blocks {
